@@ -25,10 +25,24 @@ def load_rule(prop):
 
 
 def run_check(prop: str, tier: str, repo: str, seed: int, overlay=None, quiet=False, write=True):
-    """Run one property's rules. Returns (Result, module)."""
+    """Run one property's rules, then the supporting clauses it borrows from other properties (fsa/support.py). Returns (Result, module)."""
+    from . import support
     mod = load_rule(prop)
     project = Project(repo, overlay)
-    res = mod.run(project, tier)
+    own_error = None
+    try:
+        res = mod.run(project, tier)
+    except AnalysisError as e:
+        # the property's own rules could not be evaluated (fail closed: exit 2) -- unless a supporting clause names the violation that broke the tree
+        own_error = e
+        res = report.Result(prop)
+    support.run(prop, project, tier, res, load_rule)
+    if own_error is not None:
+        if report.has_new_findings(res):
+            print(f'ANALYSIS-NOTE property={prop} own rules not evaluated: {own_error}')
+            res.floors = {k: v for k, v in res.floors.items() if k.startswith(prop + '/')}
+        else:
+            raise own_error
     res.stats['normalisation'] = project.normalisation.get('applied', {})
     res.stats['source_digest'] = project.digest()
     return res, mod
